@@ -104,6 +104,8 @@ def random_scenario(rng: random.Random, nsims=(2, 4), nconns=(1, 5), until=(2, 4
         # same attribute names the opposite roles
         if x["type"] == "hybrid" and rng.random() < 0.15 and not x.get("any_inputs") and not x.get("meta"):
             x["children"] = "swapped_parent"
+        elif x["type"] == "hybrid" and rng.random() < 0.15 and not x.get("any_inputs") and not x.get("meta"):
+            x["infer_triggers"] = True  # (see drive.AsyncProxy.init)
     if rng.random() < 0.2:
         scn["world_positional"] = True  # World(...) constructed with positional arguments (see drive.build_world)
     if rng.random() < 0.12:
